@@ -187,6 +187,95 @@ func c18Catalogue(r *rng.R) []c18prop {
 	add("map-of-arrays", J{"type": "object", "additionalProperties": J{"type": "array", "items": J{"type": "string"}, "maxItems": 2}})
 	add("nested-object", J{"type": "object", "required": []interface{}{"deep"}, "properties": J{"deep": J{"type": "string", "maxLength": 3}, "n": J{"type": "integer", "format": "int32", "minimum": 0}}})
 	add("nullable-string", J{"type": "string", "x-nullable": true, "minLength": 1})
+	// several keywords on one property: every subset of the validation vocabulary of each kind (a keyword read back
+	// correctly on its own may be lost next to another one)
+	for _, tp := range []struct{ t, f string }{{"integer", "int64"}, {"number", "double"}, {"integer", "int32"}} {
+		for mask := 0; mask < 32; mask++ {
+			if mask&(mask-1) == 0 {
+				continue // none or one keyword: catalogued above
+			}
+			sc := J{"type": tp.t, "format": tp.f}
+			var names []string
+			if mask&1 != 0 {
+				sc["minimum"] = 2
+				names = append(names, "minimum")
+			}
+			if mask&2 != 0 {
+				sc["maximum"] = 90
+				names = append(names, "maximum")
+			}
+			if mask&4 != 0 {
+				sc["multipleOf"] = 2
+				names = append(names, "multipleOf")
+			}
+			if mask&8 != 0 {
+				sc["enum"] = []interface{}{4, 6, 8}
+				names = append(names, "enum")
+			}
+			if mask&16 != 0 {
+				sc["readOnly"] = true
+				names = append(names, "readOnly")
+			}
+			add("combination["+tp.t+":"+tp.f+":"+strings.Join(names, "+")+"]", sc)
+		}
+	}
+	for mask := 0; mask < 32; mask++ {
+		if mask&(mask-1) == 0 {
+			continue
+		}
+		sc := J{"type": "string"}
+		var names []string
+		if mask&1 != 0 {
+			sc["minLength"] = 1
+			names = append(names, "minLength")
+		}
+		if mask&2 != 0 {
+			sc["maxLength"] = 9
+			names = append(names, "maxLength")
+		}
+		if mask&4 != 0 {
+			sc["pattern"] = "^[a-z]+$"
+			names = append(names, "pattern")
+		}
+		if mask&8 != 0 {
+			sc["enum"] = []interface{}{"ab", "cd"}
+			names = append(names, "enum")
+		}
+		if mask&16 != 0 {
+			sc["readOnly"] = true
+			names = append(names, "readOnly")
+		}
+		add("combination[string:"+strings.Join(names, "+")+"]", sc)
+	}
+	for mask := 0; mask < 32; mask++ {
+		if mask&(mask-1) == 0 {
+			continue
+		}
+		items := J{"type": "integer", "format": "int32"}
+		sc := J{"type": "array", "items": items}
+		var names []string
+		if mask&1 != 0 {
+			sc["minItems"] = 1
+			names = append(names, "minItems")
+		}
+		if mask&2 != 0 {
+			sc["maxItems"] = 6
+			names = append(names, "maxItems")
+		}
+		if mask&4 != 0 {
+			sc["uniqueItems"] = true
+			names = append(names, "uniqueItems")
+		}
+		if mask&8 != 0 {
+			items["minimum"], items["maximum"] = 1, 50
+			names = append(names, "items.bounds")
+		}
+		if mask&16 != 0 {
+			items["multipleOf"] = 5
+			names = append(names, "items.multipleOf")
+		}
+		add("combination[array:"+strings.Join(names, "+")+"]", sc)
+	}
 	return out
 }
 
